@@ -51,7 +51,7 @@ type planned struct {
 }
 
 func straceWrap(batchDir string) []string {
-	return []string{"strace", "-f", "-y", "-qq", "-s", "8192", "-e", "trace=%file", "-o", filepath.Join(batchDir, "strace.txt")}
+	return []string{"strace", "-f", "--seccomp-bpf", "-y", "-qq", "-s", "8192", "-e", "trace=%file", "-o", filepath.Join(batchDir, "strace.txt")}
 }
 
 func drive(d *mon.Driver, replay string) int {
@@ -124,17 +124,17 @@ func drive(d *mon.Driver, replay string) int {
 		}
 		// strace sample (seed-determined): 5% of the path space in the thorough tier, a small sample in quick
 		rs := d.Rand("strace-sample")
-		ns := d.N(160, ps.Count()/20)
+		ns := d.N(480, ps.Count()/20)
 		var sp []string
 		for len(sp) < ns {
 			if s, ok := ps.At(rs.Intn(ps.Count())); ok {
 				sp = append(sp, s)
 			}
 		}
-		for i := 0; i < d.N(32, 1000); i++ {
+		for i := 0; i < d.N(64, 1000); i++ {
 			sp = append(sp, rp[rs.Intn(nr)])
 		}
-		schunk := d.N(12, 250)
+		schunk := d.N(34, 250)
 		for lo := 0; lo < len(sp); lo += schunk {
 			hi := min(lo+schunk, len(sp))
 			bl := baseLayouts[(lo/schunk)%len(baseLayouts)]
@@ -172,6 +172,21 @@ func drive(d *mon.Driver, replay string) int {
 		}
 	}
 	sigExample := map[string]string{}
+
+	// development knob: run only one part of the plan (the result is then inconclusive by construction)
+	if only := os.Getenv("VERIF_C13_ONLY"); only != "" && replay == "" {
+		var keep []planned
+		for _, p := range plan {
+			if p.c.Kind == only {
+				keep = append(keep, p)
+			}
+		}
+		plan = keep
+		if only != "strace" {
+			stracePlan = nil
+		}
+		d.Inconclusive("VERIF_C13_ONLY=" + only + " (development run)")
+	}
 
 	primary := map[string]bool{}
 	caseIdx := map[string]int{}
@@ -292,6 +307,10 @@ func drive(d *mon.Driver, replay string) int {
 			for _, h := range hits {
 				m, ok := byMark[h.Mark]
 				if !ok {
+					continue
+				}
+				if h.Noise {
+					d.Event("strace-runtime-noise-ignored", 1)
 					continue
 				}
 				if comps, _, up := components(m.Path); h.ParentDir && m.Slot == "RemoveAll" && len(comps) == 0 && up == 0 {
